@@ -310,6 +310,121 @@ let cmd_unopt t =
     Printf.sprintf "%s %s %s %s %s %s" (string_of_n w.M.w_count) (string_of_n w.M.w_weight) (string_of_n w.M.w_lower)
       (string_of_n w.M.w_upper) (match w.M.w_jump with None -> "-1" | Some j -> string_of_n j) (string_of_n w.M.w_gcd)) ws)
 
+(* ---------- word level (Words.v): wordops / ctsearch, same answers as the Rust harness ---------- *)
+let split_colon s = Array.of_list (String.split_on_char ':' s)
+let bits01 bl = if bl = [] then "-" else String.concat "" (List.map (fun b -> if b then "1" else "0") bl)
+
+let res_out (r : 'a M.res) (ok : 'a -> string) : string =
+  match r with M.Ok a -> ok a | M.Err e -> kind_str e | M.Panic -> "panic"
+
+(* wordops <writer ops> | <BitWords ops> <reader ops> *)
+let cmd_wordops t =
+  let w = ref M.wr_default in
+  let events = ref [] in
+  let k = ref 0 in
+  let fin = ref false in
+  while not !fin && not (tdone t) do
+    let op = next t in
+    if op = "|" then fin := true else begin
+      let f = split_colon op in
+      let nn i = n_of_string f.(i) in
+      (match f.(0) with
+       | "o" -> w := M.wr_write_one !w true
+       | "z" -> w := M.wr_write_one !w false
+       | "w" -> w := M.wr_write !w (if f.(1) = "-" then [] else List.init (String.length f.(1)) (fun i -> f.(1).[i] = '1'))
+       | "u" -> w := M.wr_write_usize !w (nn 2) (nn 1)
+       | "d" | "D" -> w := M.wr_write_diff !w (nn 2) (nn 1)
+       | "v" -> (match M.wr_write_varint !w (nn 1) (nn 2) with
+           | M.Ok w' -> w := w'
+           | M.Err e -> events := Printf.sprintf "e%d:%s" !k (kind_str e) :: !events
+           | M.Panic -> events := Printf.sprintf "p%d" !k :: !events)
+       | "f" -> w := M.wr_finish_byte !w
+       | "a" -> (match M.wr_write_aligned_bytes !w (bytes_of_hex f.(1)) with
+           | M.Ok w' -> w := w'
+           | M.Err e -> events := Printf.sprintf "e%d:%s" !k (kind_str e) :: !events
+           | M.Panic -> events := Printf.sprintf "p%d" !k :: !events)
+       | "O" -> w := M.wr_overwrite !w (nn 1) (nn 2) (nn 3)
+       | "q" -> events := Printf.sprintf "q%d:%s/%s" !k (string_of_n (M.wr_bit_size !w)) (string_of_n (M.wr_byte_size !w)) :: !events
+       | _ -> failwith ("bad wordops writer op " ^ op));
+      incr k
+    end
+  done;
+  let nbits = M.wr_bit_size !w in
+  let bytes = M.wr_drain_bytes (M.wr_finish_byte !w) in
+  let head = Printf.sprintf "%s %s %s" (string_of_n nbits) (hex_of_bytes bytes)
+      (if !events = [] then "ok" else String.concat "," (List.rev !events)) in
+  (* BitWords::from(bytes), then extend_bytes / truncate_left *)
+  let (ws0, tb0) = M.bw_extend [] M.N0 bytes in
+  let words = ref ws0 and total = ref tb0 in
+  let outs = ref [] in
+  let in_reader = ref false in
+  let i = ref M.N0 and j = ref M.N0 in
+  let set (a, b) = i := a; j := b in
+  while not (tdone t) do
+    let op = next t in
+    let f = split_colon op in
+    let n = if Array.length f > 1 && f.(0) <> "x" then n_of_string f.(1) else M.N0 in
+    if not !in_reader && (f.(0) = "x" || f.(0) = "t") then begin
+      let (ws, tb) = if f.(0) = "x" then M.bw_extend !words !total (bytes_of_hex f.(1))
+        else M.bw_truncate_left !words !total n in
+      words := ws; total := tb;
+      outs := Printf.sprintf "%s@%s" f.(0) (string_of_n tb) :: !outs
+    end else begin
+      in_reader := true;
+      let out = match f.(0) with
+        | "1" -> res_out (M.rd_read_one !words !i !j !total) (fun (b, st) -> set st; if b then "1" else "0")
+        | "b" -> res_out (M.rd_read !words !i !j !total n) (fun (bl, st) -> set st; bits01 bl)
+        | "r" -> res_out (M.rd_read_diff !words !i !j !total n) (fun (v, st) -> set st; string_of_n v)
+        | "R" ->
+          (* read_diff::<u64>: the same check, then unchecked_read_diff with U::BITS = 64 *)
+          if M.rd_insufficient !i !j n !total then kind_str M.InsufficientData
+          else let (v, st) = M.rd_unchecked_read_diff_u (n_of_int 64) !words !i !j n in set st; string_of_n v
+        | "U" -> let (v, st) = M.rd_unchecked_read_diff_u (n_of_int 128) !words !i !j n in set st; string_of_n v
+        | "V" -> let (v, st) = M.rd_unchecked_read_diff_u (n_of_int 64) !words !i !j n in set st; string_of_n v
+        | "s" -> set (M.rd_seek_to (M.N.add (M.rd_bit_idx !i !j) n)); "s"
+        | "S" -> set (M.rd_seek_to n); "S"
+        | "A" ->
+          (match M.rd_read_aligned_bytes !words !i !j !total n with
+           | M.Ok (bs, st) -> set st; hex_of_bytes bs
+           | M.Err e ->
+             (* the Rust method calls refresh_if_needed before it fails; Words.v returns no state on Err *)
+             set (M.rd_refresh !i !j); kind_str e
+           | M.Panic -> "panic")
+        | _ -> failwith ("bad wordops reader op " ^ op) in
+      outs := Printf.sprintf "%s@%s" out (string_of_n (M.rd_bit_idx !i !j)) :: !outs
+    end
+  done;
+  Printf.sprintf "%s ; %s" head (if !outs = [] then "-" else String.concat " " (List.rev !outs))
+
+(* ctsearch <dt> <np> (<count> <lower_u> <upper_u>)*np <nq> <q_u>*nq *)
+let cmd_ctsearch d t =
+  let np = next_int t in
+  let ps = List.init np (fun _ ->
+    let c = n_of_string (next t) in
+    let lo = n_of_string (next t) in
+    let up = n_of_string (next t) in
+    { M.p_count = c; p_lower = lo; p_upper = up; p_code = []; p_jump = None; p_gcd = n_of_int 1 }) in
+  let nq = next_int t in
+  let qs = List.init nq (fun _ -> n_of_string (next t)) in
+  let umax = n_of_big (Z.pred (Z.shift_left Z.one (int_of_n (M.ubits d)))) in
+  (* infos.sort_unstable_by_key(|p| p.upper): uppers are pairwise distinct in the queries *)
+  let sorted = List.stable_sort (fun a b -> Z.compare (big_of_n a.M.p_upper) (big_of_n b.M.p_upper)) ps in
+  let rec shape = function
+    | M.CLeaf p -> Printf.sprintf "L(%s,%s)" (string_of_n p.M.p_lower) (string_of_n p.M.p_upper)
+    | M.CNode items ->
+      "N[" ^ String.concat " " (List.map (fun (u, c) -> string_of_n u ^ ":" ^ shape c) items) ^ "]" in
+  let tree = M.ct_from_sorted (nat_of_int (np + 1)) umax sorted in
+  let sh = match tree with Some tr -> shape tr | None -> "fuel" in
+  let pstr = function
+    | Some p -> string_of_n p.M.p_lower ^ "-" ^ string_of_n p.M.p_upper
+    | None -> "none" in
+  (* ct_search rebuilds the table for every query (same fuel); it is evaluated as such on the first
+     queries and through the tree built above (its definition unfolded) on the others *)
+  let found = List.mapi (fun k q ->
+    let viatree = match tree with Some tr -> pstr (M.ct_search_tree tr q) | None -> "none" in
+    if k < 4 && pstr (M.ct_search umax sorted q) <> viatree then "ct_search-differs" else viatree) qs in
+  Printf.sprintf "%s ; %s" sh (if found = [] then "-" else String.concat " " found)
+
 let run_line line =
   let t = toks_of line in
   let cmd = next t in
@@ -321,6 +436,7 @@ let run_line line =
   | "varint" -> cmd_varint t
   | "flagsparse" -> cmd_flagsparse t
   | "flagswrite" -> cmd_flagswrite t
+  | "wordops" -> cmd_wordops t
   | "maxpref" -> let l = n_of_string (next t) in let n = n_of_string (next t) in string_of_n (M.choose_max_n_prefixes l n)
   | "st2ts" -> cmd_st2ts t
   | "ts2st" -> cmd_ts2st t
@@ -339,6 +455,7 @@ let run_line line =
      | "kinfo" -> cmd_kinfo d t
      | "gcdbits" -> string_of_n (M.gcd_bits (n_of_string (next t)))
      | "unopt" -> cmd_unopt t
+     | "ctsearch" -> cmd_ctsearch d t
      | "pairgcd" -> let a = n_of_string (next t) in let b = n_of_string (next t) in string_of_n (M.pgcd a b)
      | "gcd" -> let k = next_int t in string_of_n (M.gcd_sorted (List.init k (fun _ -> n_of_string (next t))))
 
